@@ -5,9 +5,11 @@
        well-formed = valid ends and start <= end (an empty period [a, a) is well-formed);
      - a segment list denotes the step function val (0 where no segment is active);
      - a mode with a start time denotes mode_val (absolute time). *)
-From SC Require Import Base.Prelude Timeline.Timestamp Timeline.Segment Timeline.Mode
+From Coq Require Import Permutation.
+From SC Require Import Base.Prelude Timeline.Timestamp Timeline.Segment Timeline.Mode Timeline.Own Timeline.Wrap
   Timeline.TimestampProofs Timeline.SegmentProofs Timeline.ShiftSumProofs Timeline.ModeProofs
-  Timeline.C18Judge Timeline.C18JudgeProofs.
+  Timeline.OwnProofs Timeline.OwnRefine Timeline.WrapProofs Timeline.C18Judge Timeline.MoreProofs Timeline.C18JudgeProofs
+  Timeline.C18Table Gen.C18Funcs.
 
 (* timestamp comparison is the chronological total order and returns -1, 0 or 1 *)
 Theorem C18_compare_contract : forall a b,
@@ -161,6 +163,274 @@ Theorem C18_judge_sound : forall c, C18_guard c = true -> agrees c = true -> C18
 Proof. exact judge_sound. Qed.
 Print Assumptions C18_judge_sound.
 
+(* ================= second wave ================= *)
+
+(* ---- the cut order (cut.go) ---- *)
+(* CompareTo is the order of the positions the cuts denote on the extended time line ... *)
+Theorem C18_cut_compare_is_position_order : forall a b, cut_valid a = true -> cut_valid b = true ->
+  cut_compare a b = lex3 (cut_rank a) (cut_rank b).
+Proof. exact cut_compare_is_ref. Qed.
+Print Assumptions C18_cut_compare_is_position_order.
+(* ... hence a total order with results -1 / 0 / 1 *)
+Theorem C18_cut_order : forall a b c, cut_valid a = true -> cut_valid b = true -> cut_valid c = true ->
+  (cut_compare a b = -1 \/ cut_compare a b = 0 \/ cut_compare a b = 1) /\
+  (cut_compare a b = 0 <-> a = b) /\
+  cut_compare a b = - cut_compare b a /\
+  (cut_compare a b <= 0 -> cut_compare b c <= 0 -> cut_compare a c <= 0).
+Proof. exact cut_compare_total_order. Qed.
+Print Assumptions C18_cut_order.
+Theorem C18_cut_period : forall p,
+  cut_rank (fst (cut_period p)) = end_rank (period_lo p) (-1) /\
+  cut_rank (snd (cut_period p)) = end_rank (period_hi p) 1.
+Proof. exact cut_period_ranks. Qed.
+Print Assumptions C18_cut_period.
+
+(* ---- the remaining exported functions ---- *)
+Theorem C18_max_magnitude : forall l, max_magnitude l = max_mag_ref l.
+Proof. exact max_magnitude_is_max. Qed.
+Print Assumptions C18_max_magnitude.
+Theorem C18_max_after : forall d l, max_after_ok d l (max_after d l) = true.
+Proof. exact max_after_contract. Qed.
+Print Assumptions C18_max_after.
+(* MinAt ranges over a Go map: for EVERY iteration order the answer is a mode of the map whose
+   magnitude at t is the least one *)
+Theorem C18_min_at_any_order : forall t ms ms', Permutation ms ms' ->
+  match min_at_loop t ms' None with
+  | None => ms = []
+  | Some (m, g) => In m ms /\ g = fst (mode_magnitude_at_w t m) /\
+                   forall m', In m' ms -> g <= fst (mode_magnitude_at_w t m')
+  end.
+Proof. exact min_at_any_order. Qed.
+Print Assumptions C18_min_at_any_order.
+
+(* the boolean relation the judge evaluates for MinAt is the index form of that conclusion *)
+Theorem C18_min_at_ok_of_loop : forall t ms ms', Permutation ms ms' ->
+  match min_at_loop t ms' None with
+  | None => min_at_ok t ms (None, 0) = true
+  | Some (m, g) => exists i, nth_error ms i = Some m /\ min_at_ok t ms (Some (Z.of_nat i), g) = true
+  end.
+Proof. exact min_at_ok_of_loop. Qed.
+Print Assumptions C18_min_at_ok_of_loop.
+
+(* ---- Sum under its exact guard: magnitudes of either sign, only the open (infinite) tails must
+        add up to >= 0 (C18_sum_negative_tail_refuted shows the law fails otherwise) ---- *)
+Theorem C18_sum_is_pointwise_exact_guard : forall ls t,
+  forallb segs_wf ls = true -> 0 <= sumZ (map tail_level ls) ->
+  val (sum ls) t = sumZ (map (fun l => val l t) ls).
+Proof. exact sum_is_pointwise_tail. Qed.
+Print Assumptions C18_sum_is_pointwise_exact_guard.
+(* mode Sum under the same exact guard (magnitudes of either sign) *)
+Theorem C18_mode_sum_exact_guard : forall ms s0 rest,
+  ms <> [] -> starts ms = s0 :: rest ->
+  forallb (fun m => segs_wf (msegs m)) ms = true -> 0 <= modes_tail ms ->
+  exists r, mode_sum ms = Some r /\
+    mstart r = Some (ts_of (minZ rest s0)) /\
+    forall x, minZ rest s0 <= x ->
+      mode_val r x = sumZ (map (fun m => val (msegs m) (x - mode_st (maxZ rest s0) m)) ms).
+Proof. exact mode_sum_is_pointwise_tail. Qed.
+Print Assumptions C18_mode_sum_exact_guard.
+Theorem C18_mode_sum_no_start_exact_guard : forall ms t,
+  ms <> [] -> starts ms = [] ->
+  forallb (fun m => segs_wf (msegs m)) ms = true -> 0 <= modes_tail ms ->
+  exists r, mode_sum ms = Some r /\ mstart r = None /\
+            val (msegs r) t = sumZ (map (fun m => val (msegs m) t) ms).
+Proof. exact mode_sum_no_start_tail. Qed.
+Print Assumptions C18_mode_sum_no_start_exact_guard.
+(* the float32 guard: every magnitude Sum outputs is bounded by twice the sum of the |magnitudes| of
+   its inputs; integer magnitudes with that bound below 2^24 keep float32 addition exact *)
+Theorem C18_sum_magnitudes_bounded : forall ls,
+  Forall (fun s => Z.abs (mag s) <= 2 * sumZ (map mag_budget ls)) (sum ls).
+Proof. exact sum_magnitudes_bounded. Qed.
+Print Assumptions C18_sum_magnitudes_bounded.
+
+(* ---- machine arithmetic: inside the range guard the int64 / saturating model that is compared
+        with the code IS the integer model of the theorems above ---- *)
+Theorem C18_machine_arithmetic_segments : forall d l, dur_guard d l = true ->
+  active_at_w d l = active_at d l /\ magnitude_at_w d l = magnitude_at d l /\ duration_w l = duration l /\
+  max_after_w d l = max_after d l /\ shift_w d l = shift d l.
+Proof.
+  intros d l G. destruct (dur_guard_spec d l G) as (L & _).
+  repeat split; [apply active_at_w_eq|apply magnitude_at_w_eq|apply duration_w_eq|apply max_after_w_eq|apply shift_w_eq]; assumption.
+Qed.
+Print Assumptions C18_machine_arithmetic_segments.
+Theorem C18_machine_arithmetic_modes : forall t m, mode_dur_guard t m = true ->
+  mode_active_at_w t m = mode_active_at t m /\ mode_magnitude_at_w t m = mode_magnitude_at t m /\
+  mode_max_segment_after_w t m = mode_max_segment_after t m /\ mode_cut_w t m = mode_cut t m.
+Proof.
+  intros t m G. repeat split;
+  [apply mode_active_at_w_eq|apply mode_magnitude_at_w_eq|apply mode_max_segment_after_w_eq|apply mode_cut_w_eq]; exact G.
+Qed.
+Print Assumptions C18_machine_arithmetic_modes.
+Theorem C18_machine_arithmetic_mode_shift_sum :
+  (forall d m, dur_guard d (msegs m) = true -> mode_shift_w d m = mode_shift d m) /\
+  (forall ms, sum_small ms = true -> mode_sum_w ms = mode_sum ms).
+Proof. split; [exact mode_shift_w_eq|exact mode_sum_w_eq]. Qed.
+Print Assumptions C18_machine_arithmetic_mode_shift_sum.
+Theorem C18_machine_arithmetic_sum : forall ls, forallb lens_ok_b ls = true -> sum_w ls = sum ls.
+Proof. exact sum_w_eq. Qed.
+Print Assumptions C18_machine_arithmetic_sum.
+Theorem C18_sum_code_is_pointwise : forall ls t,
+  forallb lens_ok_b ls = true -> 0 <= sumZ (map tail_level ls) ->
+  val (sum_w ls) t = sumZ (map (fun l => val l t) ls).
+Proof.
+  intros ls t G1 G2. rewrite (sum_w_eq ls G1). apply sum_is_pointwise_tail; [|exact G2].
+  apply forallb_forall. intros l Hl. rewrite forallb_forall in G1. apply (lens_ok_b_spec l (G1 l Hl)).
+Qed.
+Print Assumptions C18_sum_code_is_pointwise.
+Theorem C18_sum_overflow_refuted :
+  exists ls t, forallb segs_wf ls = true /\ forallb segs_nonneg ls = true /\ 0 <= t /\
+               val (sum_w ls) t <> sumZ (map (fun l => val l t) ls).
+Proof. exact sum_overflow_refuted. Qed.
+(* headline for the code-level Shift: translation, for every list and offset inside the guard *)
+Theorem C18_shift_code_is_translation : forall d l t, dur_guard d l = true ->
+  val (shift_w d l) t = if t <? 0 then 0 else val l (t - d).
+Proof.
+  intros d l t G. rewrite (shift_w_eq d l G). apply shift_is_translation.
+  destruct (dur_guard_spec d l G) as ([H _] & _). exact H.
+Qed.
+Print Assumptions C18_shift_code_is_translation.
+Theorem C18_magnitude_at_code : forall d l, dur_guard d l = true -> magnitude_at_w d l = of_level (level d l).
+Proof.
+  intros d l G. destruct (dur_guard_spec d l G) as (L & _). rewrite (magnitude_at_w_eq d l L).
+  apply magnitude_at_is_level.
+Qed.
+Print Assumptions C18_magnitude_at_code.
+(* outside the guard the laws are false of the code *)
+Theorem C18_shift_min_int64_refuted :
+  exists l t, segs_wf l = true /\ val (shift_w min64 l) t <> (if t <? 0 then 0 else val l (t - min64)).
+Proof. exact shift_min64_refuted. Qed.
+Theorem C18_active_at_overflow_refuted :
+  exists d l, segs_wf l = true /\ 0 <= d /\ snd (active_at_w d l) <> snd (active_at d l).
+Proof. exact active_at_overflow_refuted. Qed.
+
+(* ---- "never modify their arguments": for every heap, every capacity / offset / sharing of the
+        argument slices and every growth policy of append, all locations that existed on entry are
+        intact on exit ---- *)
+Theorem C18_shift_never_writes_args : forall d s h, heap_ext h (snd (shift_own d s h)).
+Proof. exact shift_never_writes_args. Qed.
+Print Assumptions C18_shift_never_writes_args.
+Theorem C18_seg_cut_never_writes_args : forall d p h, heap_ext h (snd (cut_own d p h)).
+Proof. exact seg_cut_never_writes_args. Qed.
+Theorem C18_sum_never_writes_args : forall g ss h, heap_ext h (snd (sum_own g ss h)).
+Proof. exact sum_never_writes_args. Qed.
+Print Assumptions C18_sum_never_writes_args.
+Theorem C18_mode_cut_never_writes_args : forall g t m h, heap_ext h (snd (mode_cut_own g t m h)).
+Proof. exact mode_cut_never_writes_args. Qed.
+Print Assumptions C18_mode_cut_never_writes_args.
+Theorem C18_mode_shift_never_writes_args : forall g d m h, heap_ext h (snd (mode_shift_own g d m h)).
+Proof. exact mode_shift_never_writes_args. Qed.
+Theorem C18_mode_sum_never_writes_args : forall g ms h, heap_ext h (snd (mode_sum_own g ms h)).
+Proof. exact mode_sum_never_writes_args. Qed.
+Print Assumptions C18_mode_sum_never_writes_args.
+(* what that gives the caller: every slice / mode readable before reads the same afterwards *)
+Theorem C18_args_read_the_same : forall h h', heap_ext h h' ->
+  (forall s, slice_ok h s -> read_slice h' s = read_slice h s) /\
+  (forall m, (m < List.length (mcells h))%nat -> slice_ok h (snd (mcell h m)) -> read_mode h' m = read_mode h m).
+Proof. intros h h' E. split; [intros s; apply ext_read_slice; exact E|intros m; apply ext_read_mode; exact E]. Qed.
+Print Assumptions C18_args_read_the_same.
+(* the heap model computes the same lists as the value model (Shift) *)
+Theorem C18_shift_own_refines : forall d s h, slice_ok h s ->
+  read_slice (snd (shift_own d s h)) (fst (shift_own d s h)) = shift d (read_slice h s).
+Proof. exact shift_own_refines. Qed.
+Print Assumptions C18_shift_own_refines.
+
+(* headline for Shift on the heap: the result reads as the translated step function AND every
+   location of the entry heap (the argument's array, its spare capacity, its segment objects) is intact *)
+Theorem C18_shift_on_heap : forall d s h t, slice_ok h s -> segs_wf (read_slice h s) = true ->
+  let r := fst (shift_own d s h) in let h' := snd (shift_own d s h) in
+  val (read_slice h' r) t = (if t <? 0 then 0 else val (read_slice h s) (t - d)) /\
+  heap_ext h h' /\ read_slice h' s = read_slice h s.
+Proof.
+  intros d s h t Hok Hwf. cbv zeta. rewrite (shift_own_refines d s h Hok).
+  split; [apply shift_is_translation; exact Hwf|].
+  split; [apply shift_never_writes_args|]. apply ext_read_slice; [apply shift_never_writes_args|exact Hok].
+Qed.
+Print Assumptions C18_shift_on_heap.
+
+(* ... and of modepb.Cut: the result modes read out of the final heap are those of the value model *)
+Theorem C18_mode_cut_own_refines : forall g t m h b a o h',
+  (m < List.length (mcells h))%nat -> slice_ok h (snd (mcell h m)) ->
+  mode_cut_own g t m h = (b, a, o, h') ->
+  (option_map (read_mode h') b, option_map (read_mode h') a, o) = mode_cut t (read_mode h m).
+Proof. exact mode_cut_own_refines. Qed.
+Print Assumptions C18_mode_cut_own_refines.
+(* headline for modepb.Cut on the heap: inside a segment, with a start time, the two results read as the
+   function before / from t, and every location of the entry heap is intact *)
+Theorem C18_mode_cut_on_heap : forall g t m h s mb ma h',
+  (m < List.length (mcells h))%nat -> slice_ok h (snd (mcell h m)) ->
+  mstart (read_mode h m) = Some s -> segs_wf (msegs (read_mode h m)) = true ->
+  mode_cut_own g t m h = (Some mb, Some ma, false, h') ->
+  (forall x, x < t -> mode_val (read_mode h' mb) x = mode_val (read_mode h m) x) /\
+  (forall x, t <= x -> mode_val (read_mode h' ma) x = mode_val (read_mode h m) x) /\
+  heap_ext h h' /\ read_mode h' m = read_mode h m.
+Proof.
+  intros g t m h s mb ma h' Hm Hok Hs Hwf R.
+  pose proof (mode_cut_own_refines g t m h _ _ _ _ Hm Hok R) as E. simpl in E. symmetry in E.
+  destruct (mode_cut_preserves t (read_mode h m) s Hs Hwf _ _ E) as (_ & _ & H1 & H2).
+  assert (X : heap_ext h h') by (pose proof (mode_cut_never_writes_args g t m h) as F; rewrite R in F; exact F).
+  split; [exact H1|]. split; [exact H2|]. split; [exact X|]. apply ext_read_mode; assumption.
+Qed.
+Print Assumptions C18_mode_cut_on_heap.
+
+(* ... and of modepb.Shift *)
+Theorem C18_mode_shift_own_refines : forall g d m h,
+  (m < List.length (mcells h))%nat -> slice_ok h (snd (mcell h m)) ->
+  read_mode (snd (mode_shift_own g d m h)) (fst (mode_shift_own g d m h)) = mode_shift d (read_mode h m).
+Proof. exact mode_shift_own_refines. Qed.
+Print Assumptions C18_mode_shift_own_refines.
+
+(* ---- tables generated from the tree under check (Gen/C18Funcs.v) ---- *)
+Theorem C18_funcs_all_modelled :
+  forallb (fun f => match row_for (fst (fst (fst f))) (snd (fst (fst f))) with Some _ => true | None => false end) c18_funcs = true.
+Proof. exact funcs_all_in_table. Qed.
+Theorem C18_cut_table_is_model_and_order :
+  forallb (fun r => let '(a, b, obs) := r in obs =? cut_compare a b) c18_cut_rows = true /\
+  forallb (fun r => let '(a, b, obs) := r in obs =? cut_ref_compare a b) c18_cut_rows = true.
+Proof. split; [exact cut_table_is_model|exact cut_table_is_order]. Qed.
+
+(* ================= headlines, one per clause of the property ================= *)
+
+(* clause "operations commute with reading a segment list as a step function", over whole
+   histories: every expression built from literal lists with Shift and Sum (any depth, any order),
+   evaluated with the library's functions, denotes the function obtained by translating and adding *)
+Theorem C18_timeline_expressions : forall e, twf e -> forall t, val (teval e) t = tden e t.
+Proof. exact timeline_expressions. Qed.
+Print Assumptions C18_timeline_expressions.
+Example C18_nonvacuous_expression :
+  let e := TSum (TShift (-2) (TLit [mkSeg 3 (Some 4); mkSeg (-1) None])) (TShift 3 (TSum (TLit [mkSeg 2 (Some 1)]) (TLit [mkSeg 5 None]))) in
+  twf e /\ teval e = [mkSeg 3 (Some 2); mkSeg (-1) (Some 1); mkSeg 6 (Some 1); mkSeg 4 None].
+Proof. vm_compute. repeat split; try reflexivity; intro H; discriminate H. Qed.
+
+(* clause "... and never modify their arguments": all six list- / mode-returning operations *)
+Theorem C18_never_modify_arguments : forall (g : nat -> nat) (h : heap),
+  (forall d s, heap_ext h (snd (shift_own d s h))) /\
+  (forall d p, heap_ext h (snd (cut_own d p h))) /\
+  (forall ss, heap_ext h (snd (sum_own g ss h))) /\
+  (forall t m, heap_ext h (snd (mode_cut_own g t m h))) /\
+  (forall d m, heap_ext h (snd (mode_shift_own g d m h))) /\
+  (forall ms, heap_ext h (snd (mode_sum_own g ms h))).
+Proof.
+  intros g h.
+  split; [intros; apply shift_never_writes_args|].
+  split; [intros; apply seg_cut_never_writes_args|].
+  split; [intros; apply sum_never_writes_args|].
+  split; [intros; apply mode_cut_never_writes_args|].
+  split; [intros; apply mode_shift_never_writes_args|intros; apply mode_sum_never_writes_args].
+Qed.
+Print Assumptions C18_never_modify_arguments.
+
+(* clause "period predicates decide exactly ... symmetrically": from the cut order to the intervals *)
+Theorem C18_period_predicates : forall p q, period_wf p = true -> period_wf q = true ->
+  (periods_intersect (Some p) (Some q) = true <-> exists x, in_period p x /\ in_period q x) /\
+  (periods_connected (Some p) (Some q) = true <-> exists x, in_closure p x /\ in_closure q x) /\
+  periods_intersect (Some p) (Some q) = periods_intersect (Some q) (Some p) /\
+  periods_connected (Some p) (Some q) = periods_connected (Some q) (Some p).
+Proof.
+  intros p q Hp Hq. split; [apply C18_intersect_iff_common_point; assumption|].
+  split; [apply C18_connected_iff_touch; assumption|]. split; [apply intersect_sym|apply connected_sym].
+Qed.
+Print Assumptions C18_period_predicates.
+
 (* the defects of the pinned commit, kept as theorems about the old definitions *)
 Theorem C18_compare_v0_refuted :
   exists a b, ts_valid a = true /\ ts_valid b = true /\
@@ -173,6 +443,15 @@ Theorem C18_intersect_v0_refuted :
   exists p q, period_wf p = true /\ period_wf q = true /\
               periods_intersect_v0 (Some p) (Some q) = true /\ ~ exists x, in_period p x /\ in_period q x.
 Proof. exact intersect_v0_empty_period_refuted. Qed.
+
+Theorem C18_mode_sum_v0_refuted :
+  exists ms x, forallb (fun m => segs_wf (msegs m)) ms = true /\ forallb (fun m => segs_nonneg (msegs m)) ms = true /\
+    sum_small ms = true /\
+    match mode_sum_v0 ms, mode_sum ms with
+    | Some r0, Some r => mode_val r0 x <> mode_val r x /\ mstart r0 <> mstart r
+    | _, _ => False
+    end.
+Proof. exact mode_sum_v0_refuted. Qed.
 
 (* non-vacuity: the hypotheses are met by concrete non-trivial inputs *)
 Example C18_nonvacuous_periods :
@@ -190,3 +469,19 @@ Example C18_nonvacuous_cut :
   (Some (mkMode (Some (mkTs 5 0)) [mkSeg 2 (Some 2); mkSeg 7 (Some 1)]),
    Some (mkMode (Some (mkTs 5 3)) [mkSeg 7 (Some 3)]), false).
 Proof. vm_compute. reflexivity. Qed.
+Example C18_nonvacuous_dur_guard :
+  dur_guard (-4) [mkSeg 2 (Some 3); mkSeg 0 (Some 0); mkSeg 5 (Some 9223372036854775800)] = true /\
+  dur_guard 9223372036854775807 [mkSeg 1 None] = true /\
+  mode_dur_guard 5 (mkMode (Some (mkTs (-3) 999999999)) [mkSeg 2 (Some 3); mkSeg 5 None]) = true.
+Proof. vm_compute. auto. Qed.
+Example C18_nonvacuous_signed_sum :
+  let ls := [[mkSeg (-2) (Some 3); mkSeg 5 None]; [mkSeg 4 (Some 1); mkSeg (-1) None]] in
+  forallb segs_wf ls = true /\ 0 <= sumZ (map tail_level ls) /\ forallb segs_nonneg ls = false /\
+  sum ls = [mkSeg 2 (Some 1); mkSeg (-3) (Some 2); mkSeg 4 None].
+Proof. vm_compute. repeat split; try reflexivity; intro H; discriminate H. Qed.
+(* an argument with spare capacity, shifted: the result shares nothing writable with it *)
+Example C18_nonvacuous_own :
+  let '(h0, s) := arg_heap 1 2 [mkSeg 0 (Some 3); mkSeg 4 None] in
+  let '(r, h) := shift_own 5 s h0 in
+  slice_ok h0 s /\ view_slice h0 h r = (SFresh, [(PFresh, mkSeg 0 (Some 8)); (PArg 2, mkSeg 4 None)]) /\ heap_kept h0 h = true.
+Proof. vm_compute. repeat split; repeat constructor. Qed.
